@@ -1,3 +1,4 @@
+import Jrpc.BatchWriter
 import Jrpc.Framing
 /-
   Helper lemmas about the batch writer fold of `Jrpc.Framing`.
@@ -79,3 +80,82 @@ theorem objsOf_append (xs ys : List Tok) : objsOf (xs ++ ys) = objsOf xs ++ objs
   | cons x xs ih => cases x <;> simp [objsOf, ih]
 
 end Jrpc
+
+/-! ### `batchWriter` at the granularity of `Write` calls -/
+namespace Jrpc.BatchWriter
+
+theorem write_started (b : BW) (hs : b.elemStarted = true) (chunks : List String) :
+    (chunks.foldl BW.write b).out = b.out ++ body chunks ∧
+    (chunks.foldl BW.write b).started = b.started ∧ (chunks.foldl BW.write b).elemStarted = true := by
+  induction chunks generalizing b with
+  | nil => simp [body, hs]
+  | cons c rest ih =>
+    simp only [List.foldl]
+    by_cases hc : c.isEmpty
+    · have : b.write c = b := by simp [BW.write, hc]
+      rw [this]
+      have := ih b hs
+      simpa [body, List.filter, hc] using this
+    · have hw : b.write c = { b with out := b.out ++ [.data c] } := by simp [BW.write, hc, hs]
+      rw [hw]
+      have := ih { b with out := b.out ++ [.data c] } hs
+      simp only at this
+      refine ⟨?_, this.2.1, this.2.2⟩
+      rw [this.1]
+      simp [body, List.filter, hc]
+
+/-- An element started with `elemStarted = false`. -/
+theorem elem_spec (b : BW) (chunks : List String) :
+    let b' := b.elem chunks
+    (body chunks = [] → b'.out = b.out ∧ b'.started = b.started) ∧
+    (body chunks ≠ [] → b'.out = b.out ++ (if b.started then Piece.comma else Piece.lbrack) :: body chunks ∧
+                          b'.started = true) := by
+  unfold BW.elem
+  generalize hb0 : b.nextElem = b0
+  have h0 : b0.elemStarted = false ∧ b0.out = b.out ∧ b0.started = b.started := by
+    subst hb0; simp [BW.nextElem]
+  clear hb0
+  induction chunks generalizing b0 with
+  | nil => simp [body, h0.2.1, h0.2.2]
+  | cons c rest ih =>
+    simp only [List.foldl]
+    by_cases hc : c.isEmpty
+    · have : b0.write c = b0 := by simp [BW.write, hc]
+      rw [this]
+      have := ih b0 h0
+      simpa [body, List.filter, hc] using this
+    · have hst : (b0.write c).started = true := by simp [BW.write, hc, h0.1]
+      have hes : (b0.write c).elemStarted = true := by simp [BW.write, hc, h0.1]
+      have hout : (b0.write c).out = b0.out ++ [if b0.started then Piece.comma else Piece.lbrack, .data c] := by
+        simp [BW.write, hc, h0.1]
+      have hs := write_started (b0.write c) hes rest
+      have hbody : body (c :: rest) = Piece.data c :: body rest := by simp [body, List.filter, hc]
+      constructor
+      · intro hbe; rw [hbody] at hbe; simp at hbe
+      · intro _
+        refine ⟨?_, by rw [hs.2.1, hst]⟩
+        rw [hs.1, hout, hbody, h0.2.1, h0.2.2]
+        simp
+
+theorem run_from (b : BW) (elems : List (List String)) :
+    (elems.foldl BW.elem b).out = b.out ++ specFrom b.started elems ∧
+    ((elems.foldl BW.elem b).started = (b.started || !(specFrom b.started elems).isEmpty)) := by
+  induction elems generalizing b with
+  | nil => simp [specFrom]
+  | cons e es ih =>
+    simp only [List.foldl]
+    have he := elem_spec b e
+    simp only at he
+    by_cases hbe : body e = []
+    · obtain ⟨ho, hst⟩ := he.1 hbe
+      have := ih (b.elem e)
+      rw [ho, hst] at this
+      simpa [specFrom, hbe] using this
+    · obtain ⟨ho, hst⟩ := he.2 hbe
+      have := ih (b.elem e)
+      rw [ho, hst] at this
+      constructor
+      · rw [this.1]; simp [specFrom, hbe]
+      · rw [this.2]; simp [specFrom, hbe]
+
+end Jrpc.BatchWriter
